@@ -37,6 +37,9 @@ func runC05(w *World, r *Report) {
 	hrParsedURLAfterInit(w, r, "R5")
 	hrFlowDataComplete(w, r, "R5")
 	hrNodeValueOnlyWhenPresent(w, r, "R5")
+	hrExtractDomainIndexes(w, r, "R5")
+	hrWholeCollectionProbed(w, r, "R5")
+	hrAlwaysAMap(w, r, "R5")
 	hrExpressionGuards(w, r, "R5")
 	// the merge of response actions never asserts the wrong type (C07.R1-R3)
 	r.Borrow(w, runC07, map[string]string{"R1": "R5", "R2": "R5", "R3": "R5"})
